@@ -150,9 +150,9 @@ def obligations(tier):
                       desc='real split_lines, both modes, all data of 1..%d symbolic bytes, newline %r' % (N, nl),
                       bounds={'data_len': [1, N], 'newline': nl.hex()}))
     quick = tier == 'quick'
-    base = list(range(0, 24)) if quick else list(range(0, 140))
+    base = list(range(0, 24)) if quick else list(range(0, 100))
     marks = [64, 96, 128, 256, 512, 1024, 2048, 4096] if quick else \
-        [64, 96, 128, 192, 256, 384, 512, 1000, 1024, 2048, 4096, 8192, 16384, 32768, 65536, 131072]
+        [64, 96, 128, 192, 256, 384, 512, 1000, 1024, 2048, 4096, 8192, 16384, 65536]
     offsets = sorted(set(base + [x + dlt for x in marks for dlt in (-3, -2, -1, 0, 1)]))
     for nl in (NEWLINES if not quick else [NEWLINES[0], NEWLINES[1], NEWLINES[3]]):
         obs.append(Ob('window[%s]' % nl.hex(), ob_window, dict(nl=nl, offsets=offsets, W=2 if quick else 3),
